@@ -62,14 +62,35 @@ Definition domain_ok (c : ucase) : bool :=
   end.
 
 (* ---- agree --------------------------------------------------------------------------------- *)
+(* pandas glue outside Model/Transform.v: the NaN reinstatement `column.replace(label_of_nan, nan)`
+   (dropna=False) acts on the WHOLE output column, hence also on a RAW value that leaked through
+   numpy.select because an (invalid) edit removed the +inf sentinel: with output_dtype='float' a raw
+   2.0 equal to the rank of the NaN group becomes missing *)
+Definition leak_reinstate (unit : Z) (st : state) (o : out) : out :=
+  match o with
+  | ORaw (VNum z) =>
+      if st_dropna st then o
+      else match lget (st_nan st) (st_lpv st) with
+           | Some (LRank n) => if Z.eqb z (Z.of_nat n * unit) then OMissing else o
+           | _ => o
+           end
+  | _ => o
+  end.
+
+Definition model_col (c : ucase) (st : state) : res (list out) :=
+  match transform_col st (uc_cells c) with
+  | Ok os => Ok (map (leak_reinstate (uc_unit c) st) os)
+  | e => e
+  end.
+
 Definition agree_obs (c : ucase) (st : state) (oc : outcome) (o : uobs) : bool :=
   outcome_eqb oc (o_oc o)
   && list_eqb val_eqb (keys (st_order st)) (o_keys o)
   && dict_eqb (content (st_order st)) (o_content o)
   && Bool.eqb (st_dropna st) (o_dropna o)
   && ldict_equiv (st_lpv st) (o_lpv o)
-  && agree_col (uc_unit c) (transform_col st (uc_cells c)) (o_out o)
-  && agree_col (uc_unit c) (transform_col (reload (uc_fmts c) st) (uc_cells c)) (o_jout o).
+  && agree_col (uc_unit c) (model_col c st) (o_out o)
+  && agree_col (uc_unit c) (model_col c (reload (uc_fmts c) st)) (o_jout o).
 
 Fixpoint agree_run (c : ucase) (st : state) (es : list uedit) (os : list uobs) : bool :=
   match es, os with
